@@ -209,7 +209,13 @@ fn dfs(ctx: &mut Ctx, sys: &mut PortSys, acts: &[PAct], watch: &[u8], depth: usi
         path.push(*a);
         ctx.st.cases += 1;
         ctx.st.nontrivial += 1;
-        match sys.apply(a, watch) {
+        let r = sys.apply(a, watch);
+        {
+            let (x, y, z) = sys.impl_bytes(watch[0]);
+            let h = ((x as usize) << 8 ^ (y as usize) << 3 ^ (z as usize) * 131 ^ (sys.refs[watch[0] as usize].latch as usize) * 7919) & 0xffff;
+            ctx.st.outcome_bits[h / 64] |= 1 << (h % 64);
+        }
+        match r {
             Ok(()) => dfs(ctx, sys, acts, watch, depth - 1, path),
             Err(m) => report(ctx, path, m),
         }
